@@ -42,11 +42,14 @@ partial def loopAll (h : IO.FS.Stream) (r : Replayer) (st : r.State) (n : Nat) (
   let (st', res) := r.step st l
   match res with
   | some msg =>
-    IO.println s!"DIVERGE line={n+1} {msg} :: {l}"
+    let soft := msg.startsWith "SOFT "
+    let shown := if soft then (msg.drop 5).toString else msg
+    IO.println s!"DIVERGE line={n+1} {shown} :: {l}"
     if bad + 1 ≥ 40 then
       IO.println s!"DIVERGED {bad + 1}"
       return 1
-    loopAll h r st' (n+1) (bad + 1) true
+    -- a SOFT divergence was repaired by the replayer: stay in the scenario
+    loopAll h r st' (n+1) (bad + 1) (!soft)
   | none => loopAll h r st' (n+1) bad false
 
 def main (args : List String) : IO UInt32 := do
